@@ -92,6 +92,24 @@ impl Prop for C04 {
                     }
                     if res.is_ok() {
                         let _ = stored_ok.insert(*i);
+                        // a non-ephemeral event is retrievable by id as soon as its store has returned
+                        if !crate::model::kind_is_ephemeral(e.kind) {
+                            match w.get_by_id(&e.id) {
+                                Ok(Some(b)) if b == w.owned[*i].as_bytes() => {}
+                                Ok(Some(_)) => {
+                                    out.fail("C04:by-id-readback-differs", format!("step {stepno}: {} read by id right after its store differs from what was stored", e.short()));
+                                    return out;
+                                }
+                                Ok(None) => {
+                                    out.fail("C04:stored-event-not-found-by-id", format!("step {stepno}: {} was stored successfully but is not found by id", e.short()));
+                                    return out;
+                                }
+                                Err(x) => {
+                                    out.fail(format!("C04:by-id-error:{x}"), format!("step {stepno}"));
+                                    return out;
+                                }
+                            }
+                        }
                     }
                 }
                 (StepKind::Remove(id), _) => {
